@@ -365,7 +365,7 @@ const RETYPE: [&str; 16] = [
     "\"!A0\"", "\"!\u{c9}1\"", "\"!A18446744073709551615\"",
 ];
 const STRINGS: [&str; 12] = ["nope", "A0", "A2", "r", "s", "!A0", "!R1", "!\u{c9}1", "!", "!A99999999999", "!D18446744073709551615", ""];
-const INTS: [&str; 10] = ["0", "-1", "1", "25", "26", "2147483648", "4294967296", "9223372036854775808", "18446744073709551615", "18446744073709551616"];
+const INTS: [&str; 12] = ["0", "-1", "1", "25", "26", "2147483648", "4294967296", "9223372036854775808", "18446744073709551615", "18446744073709551616", "-9223372036854775808", "-9223372036854775807"];
 
 fn map_string(j: &J, v: usize) -> Option<J> {
     match j {
@@ -390,6 +390,8 @@ enum Load {
     Scale(String, String),
     /// load the document, then annotate_from_file the file
     AnnotateFile(String, String),
+    /// from_file(first), then 0: with_file(second file), 1: merge_json_file(second file), 2: merge_json_str(second = text)
+    FileThen(String, i64, String),
     None,
 }
 
@@ -592,6 +594,19 @@ fn prepare(req: &Sx, dir: &str, cache: &mut Cache) -> Case {
         }
         10 => prepare_files(req, dir),
         11 => prepare_ann_offset(req, dir),
+        13 => prepare_merge(req, dir),
+        14 => {
+            // with_file() of a STAM CSV store on a non-empty (0) / empty (1) store
+            csv_fixture(dir);
+            write_file(dir, "c.annotations.stam.csv", format!("{}A0,D0,s,TextSelector,r,,,0,5,,\n", CSV_HEADER).as_bytes());
+            let first = if req.nth(1).int() == 0 {
+                r#"{"@type":"AnnotationStore","@id":"x","resources":[{"@type":"TextResource","@id":"q","text":"hello"}]}"#
+            } else {
+                r#"{"@type":"AnnotationStore","@id":"x"}"#
+            };
+            write_file(dir, "i.store.stam.json", first.as_bytes());
+            Case { load: Load::FileThen(format!("{}/i.store.stam.json", dir), 0, format!("{}/c.store.stam.csv", dir)), input_bytes: 600, report: report_none, probe: true, note: "with_file_csv" }
+        }
         12 => {
             // (12 base header variant): the length header of one array / map / string of the CBOR file rewritten
             let base = req.nth(1).int();
@@ -696,6 +711,62 @@ fn prepare_ann_offset(req: &Sx, dir: &str) -> Case {
             write_file(dir, "c.annotations.stam.csv", f.as_bytes());
             Case { load: Load::File(format!("{}/c.store.stam.csv", dir), Config::default()), input_bytes: f.len() + 300, report: report_none, probe: true, note: "ann_offset_csv" }
         }
+    }
+}
+
+/// (13 mode def1 def2): the data set "set" defined twice; def = (keys ((id key) ..))
+fn prepare_merge(req: &Sx, dir: &str) -> Case {
+    let mode = req.nth(1).int();
+    let set_json = |d: &Sx| -> String {
+        let keys: Vec<String> = d.nth(0).list().iter().map(|k| format!(r#"{{"@type":"DataKey","@id":"k{}"}}"#, k.int())).collect();
+        let data: Vec<String> = d.nth(1).list().iter().map(|x| format!(r#"{{"@type":"AnnotationData","@id":"D{}","key":"k{}","value":{{"@type":"String","value":"v{}"}}}}"#, x.nth(0).int(), x.nth(1).int(), x.nth(0).int())).collect();
+        format!(r#"{{"@type":"AnnotationDataSet","@id":"set","keys":[{}],"data":[{}]}}"#, keys.join(","), data.join(","))
+    };
+    let store = |id: &str, inc: &str, sets: &[String]| format!(r#"{{"@type":"AnnotationStore","@id":"{}",{}"annotationsets":[{}]}}"#, id, inc, sets.join(","));
+    let s1 = set_json(req.nth(2));
+    let s2 = set_json(req.nth(3));
+    let one = store("one", "", &[s1.clone()]);
+    let two = store("two", "", &[s2.clone()]);
+    write_file(dir, "one.store.stam.json", one.as_bytes());
+    write_file(dir, "two.store.stam.json", two.as_bytes());
+    let n = one.len() + two.len() + 100;
+    let load = match mode {
+        0 => {
+            write_file(dir, "main.store.stam.json", store("main", r#""@include":["one.store.stam.json","two.store.stam.json"],"#, &[]).as_bytes());
+            Load::File(format!("{}/main.store.stam.json", dir), Config::default())
+        }
+        1 => Load::FileThen(format!("{}/one.store.stam.json", dir), 0, format!("{}/two.store.stam.json", dir)),
+        2 => Load::FileThen(format!("{}/one.store.stam.json", dir), 2, two.clone()),
+        3 => Load::FileThen(format!("{}/one.store.stam.json", dir), 1, format!("{}/two.store.stam.json", dir)),
+        _ => {
+            write_file(dir, "both.store.stam.json", store("both", "", &[s1, s2]).as_bytes());
+            write_file(dir, "main.store.stam.json", store("main", r#""@include":["both.store.stam.json"],"#, &[]).as_bytes());
+            Load::File(format!("{}/main.store.stam.json", dir), Config::default())
+        }
+    };
+    Case { load, input_bytes: n, report: report_merged, probe: true, note: "dataset_merge" }
+}
+
+/// every data item by id with the key it sits under, and the keys
+fn report_merged(st: &AnnotationStore) -> Sx {
+    let num = |s: Option<&str>| -> i64 { s.and_then(|x| x[1..].parse().ok()).unwrap_or(-1) };
+    match st.dataset("set") {
+        Some(ds) => {
+            let mut data: Vec<(i64, i64)> = ds
+                .data()
+                .map(|d| {
+                    let id = num(d.id());
+                    // retrieve by id, as a user would
+                    let k = ds.annotationdata(format!("D{}", id).as_str()).map(|x| num(x.key().id())).unwrap_or(-2);
+                    (id, k)
+                })
+                .collect();
+            data.sort();
+            let mut keys: Vec<i64> = ds.keys().map(|k| num(k.id())).collect();
+            keys.sort();
+            l(vec![a(0), l(data.iter().map(|(i, k)| l(vec![a(*i), a(*k)])).collect()), l(keys.iter().map(|k| a(*k)).collect())])
+        }
+        None => l(vec![a(0), l(vec![]), l(vec![])]),
     }
 }
 
@@ -877,6 +948,11 @@ fn child_main(batch: &str) -> ! {
             Load::File(f, cfg) => Some(AnnotationStore::from_file(f, cfg.clone())),
             Load::Merge(first, second, cfg) => Some(AnnotationStore::from_str(first, cfg.clone()).and_then(|mut st| st.merge_json_str(second).map(|_| st))),
             Load::AnnotateFile(doc, file) => Some(AnnotationStore::from_str(doc, Config::default()).and_then(|mut st| st.annotate_from_file(file).map(|_| ()).map(|_| st))),
+            Load::FileThen(first, op, second) => Some(AnnotationStore::from_file(first, Config::default()).and_then(|mut st| match op {
+                0 => st.with_file(second),
+                1 => st.merge_json_file(second).map(|_| st),
+                _ => st.merge_json_str(second).map(|_| st),
+            })),
             Load::Scale(d1, d4) => {
                 let t0 = cpu_ms();
                 let r1 = AnnotationStore::from_str(d1, Config::default());
@@ -1097,7 +1173,7 @@ pub fn run_batch(reqs: &[Sx]) -> Vec<Obs> {
 /// the observations of one request as the driver expects them
 fn outputs(req: &Sx, o: &Obs) -> Vec<Sx> {
     match req.nth(0).int() {
-        1 | 2 | 7 | 8 | 9 | 11 => vec![l(vec![a(o.safety)]), if matches!(o.safety, 1 | 2 | 3) { l(vec![a(9)]) } else { o.result.clone() }],
+        1 | 2 | 7 | 8 | 9 | 11 | 13 => vec![l(vec![a(o.safety)]), if matches!(o.safety, 1 | 2 | 3) { l(vec![a(9)]) } else { o.result.clone() }],
         3 => vec![if o.safety == 1 { l(vec![a(-1)]) } else if o.safety == 2 { l(vec![a(-2)]) } else if o.safety != 0 { l(vec![a(-(o.safety))]) } else { o.result.clone() }],
         _ => vec![l(vec![a(o.safety)])],
     }
@@ -1523,6 +1599,52 @@ pub fn generate(out: &mut Out, tier: &str, seed: u64) {
     for w in 0..14i64 {
         reqs.push((l(vec![a(10), a(w)]), "file_references".into()));
     }
+    // (13) one data set defined twice: the second definition a permutation / subset / superset / disjoint part
+    {
+        // global assignment data id -> key: D_i sits under key i % 3
+        let def = |keys: &[i64], ids: &[i64]| -> Sx { l(vec![l(keys.iter().map(|k| a(*k)).collect()), l(ids.iter().map(|i| l(vec![a(*i), a(*i % 3)])).collect())]) };
+        let firsts: Vec<(Vec<i64>, Vec<i64>)> = vec![(vec![0, 1, 2], vec![0, 1, 2]), (vec![0, 1], vec![0, 1]), (vec![2, 1, 0], vec![2, 0, 1, 3]), (vec![0], vec![]), (vec![], vec![])];
+        let seconds: Vec<(Vec<i64>, Vec<i64>)> = vec![
+            (vec![0, 1, 2], vec![0, 1, 2]),          // identical
+            (vec![2, 1, 0], vec![2, 1, 0]),          // permutation
+            (vec![1, 0], vec![1]),                   // subset, other order
+            (vec![0, 1, 2], vec![0, 1, 2, 3, 4, 5]), // superset, appended
+            (vec![2, 0, 1], vec![5, 4, 3, 2, 1, 0]), // superset, reversed
+            (vec![2], vec![5, 8]),                   // disjoint
+            (vec![1, 2], vec![4, 7, 5]),             // disjoint, keys partly shared
+            (vec![2, 1, 0], vec![]),                 // keys only
+            (vec![], vec![]),
+        ];
+        for mode in 0..5i64 {
+            for f in &firsts {
+                for sd in &seconds {
+                    reqs.push((l(vec![a(13), a(mode), def(&f.0, &f.1), def(&sd.0, &sd.1)]), "dataset_merge".into()));
+                }
+            }
+        }
+        for _ in 0..(if thorough { 3000 } else { 200 }) {
+            let mut mk = |rng: &mut Rng| -> (Vec<i64>, Vec<i64>) {
+                let mut ids: Vec<i64> = (0..9).filter(|_| rng.chance(1, 2)).collect();
+                for i in (1..ids.len()).rev() {
+                    let j = rng.below(i + 1);
+                    ids.swap(i, j);
+                }
+                let mut keys: Vec<i64> = vec![0, 1, 2];
+                for i in (1..3).rev() {
+                    let j = rng.below(i + 1);
+                    keys.swap(i, j);
+                }
+                // a definition lists the keys its data needs (some more, in any order)
+                let keys: Vec<i64> = keys.into_iter().filter(|k| ids.iter().any(|i| i % 3 == *k) || rng.chance(1, 2)).collect();
+                (keys, ids)
+            };
+            let f = mk(&mut rng);
+            let sd = mk(&mut rng);
+            reqs.push((l(vec![a(13), a(rng.below(5) as i64), def(&f.0, &f.1), def(&sd.0, &sd.1)]), "dataset_merge_random".into()));
+        }
+    }
+    reqs.push((l(vec![a(14), a(0)]), "with_file_csv".into()));
+    reqs.push((l(vec![a(14), a(1)]), "with_file_csv".into()));
     // (11) an annotation selector with offset on annotations of every target kind
     for mode in 0..3i64 {
         for tkind in 0..10i64 {
@@ -1641,6 +1763,6 @@ pub fn generate(out: &mut Out, tier: &str, seed: u64) {
     out.count_n("max_cpu_ms_measured", stats.max_cpu_ms);
 }
 
-pub const RULE: &str = "String parsers in process: every string of length <=4 (thorough 5) over {+,-,0,1,9,x,space} and boundary values around 2^63/2^64 for Cursor, every keyword of Type/SelectorKind/DataFormat in case/letter variants (incl. U+212A, U+0130), every string of length <=3 (thorough 4) over {!,A,R,U+C9,U+FF21,U+1D400,a,0,1,9,+,-} through every id lookup. Documents in child processes (ulimit -v 2 GiB, stdin closed, hang = 60 s without progress; memory budget 48 MiB + input/4, cpu budget 1.5 s + 4 us/byte, both measured): annotations/data arrays of <=3 items over 10 identifier shapes x buildable or not x one or two arrays x strip_temp_ids on/off x empty or non-empty store, identifiers with numbers up to 2^64, composite targets over all pairs (thorough triples) of sub-selector kinds, random longer documents; CSV rows: every simple selector kind x reference/offset/key column shapes, complex rows over all pairs of sub-selector kinds with full, missing, short and empty columns, random rows; @include chains and cycles, \"-\" as include, self-referring manifests and other odd file references; the same arrays through merge_json_str; cpu time of n against 4n annotations with inline data (with/without ids, one key/one key each); CBOR nesting depth and out-of-range handles; an AnnotationSelector with offset on annotations of all ten target kinds x 8 offsets in JSON, annotate_from_file and CSV; every length header (string/array/map) of the CBOR files rewritten in 20 ways (huge values, 1/2/4/8-byte forms, indefinite, +-1, 0); generic mutations of library-written JSON (delete/duplicate/swap every node, retype, dangling/cyclic/temporary references, extreme integers, truncation, bit flips), CSV (truncation, bit flips, cell replacement in every file) and CBOR (truncation at every (quick: third) byte, bit flips). Non-trivial: the document loads and the lookups run. distinct = distinct request lines.";
+pub const RULE: &str = "String parsers in process: every string of length <=4 (thorough 5) over {+,-,0,1,9,x,space} and boundary values around 2^63/2^64 for Cursor, every keyword of Type/SelectorKind/DataFormat in case/letter variants (incl. U+212A, U+0130), every string of length <=3 (thorough 4) over {!,A,R,U+C9,U+FF21,U+1D400,a,0,1,9,+,-} through every id lookup. Documents in child processes (ulimit -v 2 GiB, stdin closed, hang = 60 s without progress; memory budget 48 MiB + input/4, cpu budget 1.5 s + 4 us/byte, both measured): annotations/data arrays of <=3 items over 10 identifier shapes x buildable or not x one or two arrays x strip_temp_ids on/off x empty or non-empty store, identifiers with numbers up to 2^64, composite targets over all pairs (thorough triples) of sub-selector kinds, random longer documents; CSV rows: every simple selector kind x reference/offset/key column shapes, complex rows over all pairs of sub-selector kinds with full, missing, short and empty columns, random rows; @include chains and cycles, \"-\" as include, self-referring manifests and other odd file references; the same arrays through merge_json_str; cpu time of n against 4n annotations with inline data (with/without ids, one key/one key each); CBOR nesting depth and out-of-range handles; one data set defined twice (second definition identical / permuted / subset / superset / disjoint, through sub-stores, with_file, merge_json_str, merge_json_file, two set objects in one merged file); with_file of a CSV store; an AnnotationSelector with offset on annotations of all ten target kinds x 8 offsets in JSON, annotate_from_file and CSV; every length header (string/array/map) of the CBOR files rewritten in 20 ways (huge values, 1/2/4/8-byte forms, indefinite, +-1, 0); generic mutations of library-written JSON (delete/duplicate/swap every node, retype, dangling/cyclic/temporary references, extreme integers, truncation, bit flips), CSV (truncation, bit flips, cell replacement in every file) and CBOR (truncation at every (quick: third) byte, bit flips). Non-trivial: the document loads and the lookups run. distinct = distinct request lines.";
 
 pub const EXHAUSTIVE: bool = true;
